@@ -370,6 +370,14 @@ class Resolver:
             for n in _walk_no_nested(fi.node):
                 if isinstance(n, ast.Assign) and len(n.targets) == 1:
                     t = n.targets[0]
+                    if isinstance(t, ast.Name) and t.id == expr.id and isinstance(n.value, (ast.Attribute, ast.Name)) and _dotted(n.value) != expr.id:
+                        # alias of an attribute / other local
+                        if getattr(self, "_rt_depth", 0) < 4:
+                            self._rt_depth = getattr(self, "_rt_depth", 0) + 1
+                            try:
+                                out |= self.receiver_types(fi, n.value)
+                            finally:
+                                self._rt_depth -= 1
                     if isinstance(t, ast.Name) and t.id == expr.id and isinstance(n.value, ast.Call):
                         d = _dotted(n.value.func)
                         if d:
@@ -469,9 +477,11 @@ class Resolver:
         f = call.func
         d = _dotted(f)
         if d and not d.startswith("self"):
-            r = self.proj.resolve_name(fi.module, d)
-            if not r.startswith("@"):
-                return r
+            head = d.split(".")[0]
+            if head in fi.module.imports or "." not in d:
+                r = self.proj.resolve_name(fi.module, d)
+                if not r.startswith("@"):
+                    return r
         if isinstance(f, ast.Attribute):
             for bt in self.receiver_types(fi, f.value):
                 if not bt.startswith("@"):
